@@ -23,8 +23,7 @@ class DictEventFactory(Contract):
         def inv(done, view, st):
             info = self._info
             y = z3.Const("y!inv", Val)
-            return [("added-merged-for-visited-keys", view["added"] == z3.Lambda(
-                [y], ite(done[y], info["M"][y], info["A"][y])))]
+            return [("added-merged-for-visited-keys", view["added"] == mk_lambda(y, ite(done[y], info["M"][y], info["A"][y])))]
         cx.on_loop = loops.make_hook({0: loops.LoopSpec("for key in changed", ["added"], inv, over="members")})
 
     def setup(self, cx, I, ov):
